@@ -11,7 +11,7 @@ EXPLANATION = ('Decoder tables extracted from MIR and compared with the specific
                'the property keys and wire-type helper each inbound packet accepts (with duplicate rejection inside every '
                'optional helper), per-type dispatch with fixed first bytes, the size check that dominates buffering, and a '
                'panic-site inventory of every body reachable from Decoder::decode_bytes with each site discharged by a '
-               'dominating length/variant guard or a listed state invariant that has its own maintenance rule.')
+               'dominating length/variant guard or a listed state invariant that has its own maintenance rule. Added in round 2: the wire layout of every inbound packet decoder as a reaching-definition chain over the body cursor (field order, optional fields, property/payload split, flag bits), property key vs destination field agreement, and the value flow of the maximum packet size in force from the CONNECT options to the decoder comparison.')
 ASSUMPTIONS = ['not decided: value faithfulness for arbitrary byte content and invariance under every chunking of the stream '
                '(only the structural conditions: state-field write sets, size check placement, bounds guards)']
 
@@ -119,8 +119,12 @@ def run(ctx):
             rows.append((key, spec[0], helper, show(cs.arg(1)) if cs else None))
             ctx.ob(helper is not None and HELPER_TYPES.get(helper) == spec[1], '%s property %d (%s, %s) decoded by %s' % (pk, key, spec[0], spec[1], helper),
                    'prop|%s|%d' % (pk, key), loc=cs.loc() if cs else v.loc())
+            dest_ = show(cs.arg(1)) if cs is not None and len(cs.args) > 1 else None
+            ctx.ob(dest_ is not None and codec.name_agrees(dest_, spec[0]), '%s property %d (%s) is decoded into the field of that meaning (`%s`)' % (pk, key, spec[0], dest_), 'prop-field|%s|%d' % (pk, key), loc=cs.loc() if cs else v.loc())
             if cs is not None and key not in mqtt5.REPEATABLE:
                 ctx.ob(helper.startswith('decode_optional_'), '%s property %d is non-repeatable and goes through a duplicate-rejecting helper' % (pk, key), 'prop-dup|%s|%d' % (pk, key), loc=cs.loc())
+        dests_ = [r[3] for r in rows if r[3]]
+        ctx.ob(len(dests_) == len(set(dests_)), '%s: every property is decoded into its own field (no two keys share a destination)' % pk, 'prop-field-distinct|' + pk, loc=v.loc())
         for key in sorted(set(tab) - legal):
             ctx.note('%s decoder also accepts property %d, not allowed by the specification for this packet' % (pk, key))
         # unknown keys are an error
@@ -141,7 +145,7 @@ def run(ctx):
         nh += 1
         stores = [i for (i, s, pe, rve) in [(i, s, hv.place_expr(s['lhs']), hv.rvalue_expr(s['rv'], i)) for (i, j, s) in hv.stmts() if s['k'] == 'assign' and s['lhs']['p']]
                   if show(pe) == 'value' and rve[0] == 'agg' and rve[2] == 'Some']
-        ok = bool(stores) and all(prims.guarded_any(hv, b, [r'^!Option::is_some\(value\)$', r'^Option::is_none\(value\)$']) for b in stores)
+        ok = bool(stores) and all(prims.guarded_any(hv, b, [r'^value is None$', r'^value is None$']) for b in stores)
         ctx.ob(ok, '%s stores the value only after rejecting an already-set destination (duplicate property)' % h, 'dup-check|' + h, loc=hv.loc())
     ctx.floor(nh, 6, 'optional decode helpers')
 
@@ -328,7 +332,7 @@ def _tree(*items):
 
 RC = 'decode_u8_as_enum -> packet.reason_code'
 PID = 'decode_u16 -> packet.packet_id'
-PLEN = 'decode_vli_into_mutable -> properties_length'
+PLEN = 'decode_vli_into_mutable -> $len'
 TOPIC = 'decode_length_prefixed_string -> packet.topic'
 
 
@@ -337,15 +341,15 @@ def _ack5(var):
 
 
 def _sub5(var):
-    return _tree((PID, 'START'), (PLEN, PID), ('to:properties_length', PLEN), ('from:properties_length', PLEN),
-                 ('decode_%s_properties -> packet' % var.lower(), 'to:properties_length'), ('iter', 'from:properties_length'))
+    return _tree((PID, 'START'), (PLEN, PID), ('to:$len', PLEN), ('from:$len', PLEN),
+                 ('decode_%s_properties -> packet' % var.lower(), 'to:$len'), ('iter', 'from:$len'))
 
 
 LAYOUTS = {
-    ('Connack', '5'): _tree(('byte[0] -> flags', 'START'), ('from:1', 'START'), (RC, 'from:1'), (PLEN, RC), ('decode_connack_properties -> packet', PLEN)),
-    ('Connack', '311'): _tree(('byte[0] -> flags', 'START'), ('from:1', 'START'), (RC, 'from:1')),
-    ('Publish', '5'): _tree((TOPIC, 'START'), (PID, TOPIC), (PLEN, TOPIC, PID), ('to:properties_length', PLEN), ('from:properties_length', PLEN),
-                            ('decode_publish_properties -> packet', 'to:properties_length'), ('to_vec', 'from:properties_length')),
+    ('Connack', '5'): _tree(('byte[0] -> $byte', 'START'), ('from:1', 'START'), (RC, 'from:1'), (PLEN, RC), ('decode_connack_properties -> packet', PLEN)),
+    ('Connack', '311'): _tree(('byte[0] -> $byte', 'START'), ('from:1', 'START'), (RC, 'from:1')),
+    ('Publish', '5'): _tree((TOPIC, 'START'), (PID, TOPIC), (PLEN, TOPIC, PID), ('to:$len', PLEN), ('from:$len', PLEN),
+                            ('decode_publish_properties -> packet', 'to:$len'), ('to_vec', 'from:$len')),
     ('Publish', '311'): _tree((TOPIC, 'START'), (PID, TOPIC), ('to_vec', TOPIC, PID)),
     ('Puback', '5'): _ack5('Puback'), ('Pubrec', '5'): _ack5('Pubrec'), ('Pubrel', '5'): _ack5('Pubrel'), ('Pubcomp', '5'): _ack5('Pubcomp'),
     ('Puback', '311'): _tree((PID, 'START')), ('Pubrec', '311'): _tree((PID, 'START')), ('Pubrel', '311'): _tree((PID, 'START')), ('Pubcomp', '311'): _tree((PID, 'START')),
@@ -368,9 +372,16 @@ def run_layout(ctx, F):
             continue
         steps, cur = cursor.chain(v)
         got = {}
+        # local names are roles, not part of the layout: the VBI-decoded local is `$len`, a byte read lands in `$byte`
+        lens = {st.dest for st in steps if st.what == 'decode_vli_into_mutable' and st.dest and re.match(r'^\w+$', st.dest)}
+        def role(lab):
+            lab = re.sub(r' -> \(AsMut::as_mut\(\w+\)\)@\w+\.0$', ' -> packet', lab)
+            for L in lens:
+                lab = re.sub(r'(^(?:to|from):|-> )%s$' % re.escape(L), r'\1$len', lab)
+            lab = re.sub(r'^(byte\[\d+\]) -> \w+$', r'\1 -> $byte', lab)
+            return lab
         for lab, preds in cursor.wire_graph(steps):
-            lab = re.sub(r' -> \(AsMut::as_mut\(box_packet\)\)@\w+\.0$', ' -> packet', lab)
-            got[lab] = frozenset(preds)
+            got[role(lab)] = frozenset(role(x) for x in preds)
         n += 1
         for lab in sorted(set(want) | set(got)):
             w, g = want.get(lab), got.get(lab)
